@@ -192,6 +192,10 @@ def applyOp (udp : Bool) (limit epLimit : Nat) (sim : Sim) (f : List String) : O
     let obs := (prog.splitOn "+").filterMap (fun st => if st.startsWith "o" then (st.drop 1).toString.toNat? else none)
     some ({ sim with s := { s with inbox := s.inbox ++ [⟨m, .req (compileProg udp limit epLimit prog)⟩] },
                      obsExch := obs ++ sim.obsExch }, [])
+  | ["mon", m, prog] => do
+    -- a message the request monitor drops, and request m right behind it: the dropped one is never queued
+    let m ← m.toNat?
+    some ({ sim with s := { s with inbox := s.inbox ++ [⟨m, .req (compileProg udp limit epLimit prog)⟩] } }, [])
   | ["arrivem", m, prog, _, _] => do
     let m ← m.toNat?
     some ({ sim with s := { s with inbox := s.inbox ++ [⟨m, .req (compileProg udp limit epLimit prog)⟩] } }, [])
@@ -264,7 +268,7 @@ def model (line : String) : String :=
         | some (sim, pre) =>
           let f := sub.splitOn ":"
           -- the harness lets one millisecond of virtual time pass before every arrival / outside call (first part of a compound op only)
-          let sim := if idx == 0 && (["arrive", "arrivem", "dup", "call", "burst", "watch", "note"].contains (f.headD "") || (udp && f.headD "" == "empty")) then sleepFor sim 1 else sim
+          let sim := if idx == 0 && (["arrive", "arrivem", "mon", "dup", "call", "burst", "watch", "note"].contains (f.headD "") || (udp && f.headD "" == "empty")) then sleepFor sim 1 else sim
           match applyOp udp limit epLimit sim f with
           | some (sim1, p) =>
             (match f with
@@ -294,7 +298,7 @@ def classify (line : String) : String :=
     let sim := ops.foldl (fun (sim : Sim) op =>
       settle (((op.splitOn "&").zipIdx).foldl (fun (sim : Sim) (sub, idx) =>
         let f := sub.splitOn ":"
-        let sim := if idx == 0 && (["arrive", "arrivem", "dup", "call", "burst", "watch", "note"].contains (f.headD "") || (udp && f.headD "" == "empty")) then sleepFor sim 1 else sim
+        let sim := if idx == 0 && (["arrive", "arrivem", "mon", "dup", "call", "burst", "watch", "note"].contains (f.headD "") || (udp && f.headD "" == "empty")) then sleepFor sim 1 else sim
         match applyOp udp limit epLimit sim f with
         | some (sim1, _) => (match f with
             | ["sleep", ms] => sleepFor sim1 (ms.toNat?.getD 0)
@@ -319,6 +323,7 @@ def history (udp : Bool) (ops : List String) (segs : List String) : Option (List
   let writes : List String := (ops.flatMap (·.splitOn "&")).flatMap fun sub =>
     match sub.splitOn ":" with
     | "arrive" :: _ :: prog :: _ => (prog.splitOn "+").filterMap (fun st => if st.startsWith "w" then some (st.drop 1).toString else none)
+    | "mon" :: _ :: prog :: _ => (prog.splitOn "+").filterMap (fun st => if st.startsWith "w" then some (st.drop 1).toString else none)
     | "arrivem" :: _ :: prog :: _ => (prog.splitOn "+").filterMap (fun st => if st.startsWith "w" then some (st.drop 1).toString else none)
     | ["call", prog] => (prog.splitOn "+").filterMap (fun st => if st.startsWith "w" then some (st.drop 1).toString else none)
     | _ => []
@@ -333,6 +338,8 @@ def history (udp : Bool) (ops : List String) (segs : List String) : Option (List
      | ["arrive", m, prog] =>
       let m ← m.toNat?
       hist := hist ++ [.arrive m (prog != "r")]
+     | ["mon", m, prog] =>
+       hist := hist ++ [.arrive (← m.toNat?) (prog != "r")]
      | ["arrivem", m, prog, _, _] =>
        hist := hist ++ [.arrive (← m.toNat?) (prog != "r" && prog != "a")]
      | ["resp2", k] => if !early then hist := hist ++ [.answered (← k.toNat?), .arrive (7000 + (← k.toNat?)) false]
